@@ -91,7 +91,11 @@ def spaces(tier, seed):
                 for nd in (255, 256, 257, 300, 521) for sp in (1, 2, 4) for t in ("min", "max")
                 for inv in (-9999, "NaN") for (rows, cols) in ((3, 7), (101, 2))]
     hist = [{"kind": "defhist", "first": f, "type": t} for f in INVALIDS for t in ("min", "max")]
+    infcv = [{"kind": "infcv", "nd": nd, "type": t, "inv": inv, "shape": shp}
+             for nd in (1, 2, 3) for t in ("min", "max") for inv in (-9999, "NaN") for shp in ((1, 1), (3, 101))]
     return [
+        {"name": "volumes holding +/-inf costs next to NaN and finite ones: the step leaves them as they are "
+                 "(only the unchanged / carried-over clauses are judged there)", "level": 1, "cases": infcv},
         {"name": "invalid_disparity omitted after another step object was configured with an explicit value", "level": 1,
          "cases": hist},
         {"name": "long disparity axes (255..521 samples, subpix 1/2/4), winner placed at every index class", "level": 1,
@@ -337,6 +341,8 @@ def run_case(case):
         return run_machine(case)
     if case["kind"] == "long":
         return run_long(case)
+    if case["kind"] == "infcv":
+        return run_infcv(case)
     alpha = [np.nan, 0.0, 1.0, 2.0, 3.0][: case["na"]]
     nd, t, inv = case["nd"], case["type"], case["inv"]
     vecs = vectors(nd, alpha)
@@ -369,6 +375,51 @@ def run_case(case):
     dig = hashlib.sha1(np.nan_to_num(out["disparity_map"].data, nan=-7777.0).tobytes()).hexdigest()[:12]
     sigs = [f"p|{rows}x{cols}|{t}|{inv}|{nd}|{case['axis']}|{case['conf']}|{dig}"] if nontrivial else []
     return {"n": 1, "sigs": sigs, "viol": viol[:5], "trivial": 0 if nontrivial else 1}
+
+
+def run_infcv(case):
+    """
+    every cost vector over {NaN, -inf, 0, 1, +inf}: which of several infinite costs wins is not defined by the
+    property, but the volume, its flags and the confidence bands must come out of the step exactly as they went in
+    """
+    nd, t, inv = case["nd"], case["type"], case["inv"]
+    vecs = vectors(nd, [np.nan, -np.inf, 0.0, 1.0, np.inf])
+    disps = np.arange(-1, -1 + nd)
+    ny, nx = case["shape"]
+    viol, sigs, n = [], [], 0
+
+    def judge(costs, conf, validity):
+        before, cv, out = _call(costs, disps, t, inv, conf, validity)
+        if not D.arr_eq(before["cost_volume"].data, cv["cost_volume"].data) or cv["cost_volume"].dtype != np.float32:
+            w = np.argwhere(~((before["cost_volume"].data == cv["cost_volume"].data)
+                              | (np.isnan(before["cost_volume"].data) & np.isnan(cv["cost_volume"].data))))
+            r, c, d = w[0]
+            viol.append({"clause": "cost-volume-unchanged", "key": f"C03/cost-volume-unchanged/{t}/infinite costs",
+                         "detail": f"cost vector {costs[r, c].tolist()} ({t}, invalid_disparity {inv}) came out as "
+                                   f"{cv['cost_volume'].data[r, c].tolist()}"})
+        if not D.arr_eq(before["validity_mask"].data, out["validity_mask"].data) or not D.arr_eq(
+                before["validity_mask"].data, cv["validity_mask"].data):
+            viol.append({"clause": "flags-carried", "key": f"C03/flags-carried/{t}/infinite costs",
+                         "detail": "validity mask altered by the disparity step on a volume with infinite costs"})
+        if conf and ("confidence_measure" not in out or not D.arr_eq(before["confidence_measure"].data,
+                                                                     out["confidence_measure"].data)):
+            viol.append({"clause": "confidence-carried", "key": f"C03/confidence-carried/{t}/infinite costs",
+                         "detail": "confidence bands altered by the disparity step on a volume with infinite costs"})
+        return out
+
+    if (ny, nx) == (1, 1):
+        for v in vecs:
+            out = judge(v.reshape(1, 1, nd), 0, None)
+            n += 1
+            sigs.append(f"i|{v.tolist()}|{t}|{inv}|{np.nan_to_num(out['disparity_map'].data, nan=-7777.0).tolist()}")
+    else:
+        rr, cc = np.meshgrid(np.arange(ny), np.arange(nx), indexing="ij")
+        costs = vecs[(rr * 7 + cc * 13) % len(vecs)]
+        validity = np.array(FLAGS, dtype=np.uint16)[(rr * 3 + cc) % len(FLAGS)]
+        judge(costs, 2, validity)
+        n += 1
+        sigs.append(f"i|packed|{nd}|{t}|{inv}")
+    return {"n": n, "sigs": sigs, "viol": viol[:4]}
 
 
 def init_worker():
